@@ -273,7 +273,7 @@ func (w *World) globalCell(in *Interp, key string, t types.Type) *Cell {
 func (w *World) isPureExtern(key string) bool { return w.pureExterns[key] }
 
 func (w *World) refCell(in *Interp, ref Term, elem types.Type) *Cell {
-	panic(&Unsupported{Msg: "pointer read back from a container (field-heap model not available)"})
+	panic(&Unsupported{Msg: fmt.Sprintf("pointer read back from a container (field-heap model not available): *%s, term sort %s", elem, ref.Sort)})
 }
 
 // paramNames returns the declared receiver/parameter names of the function a contract is about.
